@@ -19,7 +19,7 @@ for arg in sys.argv[1:]:
     try:
         for c in checks.split(","):
             t0 = time.time()
-            rc, out = sh(f"./check {c} quick", V)
+            rc, out = sh(f"VERIF_SCRATCH_OUT=/tmp/verif_seed_out ./check {c} quick", V)
             det = [l.strip() for l in out.splitlines() if l.strip().startswith("class=")][:2]
             res.setdefault(mid, {})[c] = {"exit": rc, "detected": rc == 1, "detail": [d[:300] for d in det], "wall_s": round(time.time() - t0, 1)}
             print(mid, c, "exit", rc, "DETECTED" if rc == 1 else "missed", (det[0][:160] if det else ""))
